@@ -6,7 +6,7 @@ FAMILIES = [dict(name="take", ids=[1, 2, 3, 4], vals=[5], maxv=8, maxops=3, maxo
 
 
 def run(prop, tier, replay):
-    return T.run(prop, tier, FAMILIES, {"TakeEqualsScan", "TakeRowsEqualsScan"}, tail_steps=[{"op": "take_probe"}],
+    return T.run(prop, tier, FAMILIES, {"TakeEqualsScan", "TakeRowsEqualsScan"}, replay=replay, tail_steps=[{"op": "take_probe"}],
                  assumptions=["after every history the driver derives the key lists from the observed table: every position, row id and "
                               "address once, all in reverse order, duplicates, and one offset past the end (must be refused)",
                               "projection is the key column; blob columns and take_scan are not covered"])
